@@ -53,7 +53,11 @@ AfterStop(b, j) ==
   ELSE IF b[j] = 13 /\ j < Len(b) /\ b[j + 1] = 10 THEN j + 2
   ELSE j + 1
 ReadLine(b, cur) == LET j == ScanTo(b, cur, FALSE) IN [text |-> SubSeq(b, cur, j - 1), next |-> AfterStop(b, j)]
-ReadField(b, cur) == LET j == ScanTo(b, cur, TRUE) IN [text |-> SubSeq(b, cur, j - 1), next |-> AfterStop(b, j)]
+\* INPUT skips the blanks in front of a field (after having looked for the end of the input)
+RECURSIVE SkipBlanks(_, _)
+SkipBlanks(b, i) == IF i <= Len(b) /\ b[i] = 32 THEN SkipBlanks(b, i + 1) ELSE i
+ReadField(b, cur0) == LET cur == SkipBlanks(b, cur0)
+                         j == ScanTo(b, cur, TRUE) IN [text |-> SubSeq(b, cur, j - 1), next |-> AfterStop(b, j)]
 
 RECURSIVE DigitsVal(_, _)
 DigitsVal(s, acc) == IF s = <<>> THEN acc ELSE DigitsVal(Tail(s), acc * 10 + (Head(s) - 48))
@@ -96,10 +100,13 @@ Step(st, o) ==
            [(IF Exists(st, o.name) THEN st ELSE SetFile(st, o.name, <<>>)) EXCEPT !.h[o.n] = [m |-> "output", name |-> o.name]]
          ELSE \* random
            (IF Exists(st, o.name) THEN Unfixed(st)           \* re-opening an existing file at random: not modelled
-            ELSE [SetFile(st, o.name, <<>>) EXCEPT !.h[o.n] = [m |-> "random", name |-> o.name, len |-> o.len, fld |-> <<>>]])
+            ELSE [SetFile(st, o.name, <<>>) EXCEPT !.h[o.n] = [m |-> "random", name |-> o.name, len |-> o.len, fld |-> <<>>, more |-> <<>>]])
     [] o.op = "print" ->
          IF st.h[o.n].m # "output" THEN Fail(st, FileErr)
          ELSE SetFile(st, st.h[o.n].name, st.store[st.h[o.n].name] \o o.text \o CRLF)
+    [] o.op = "printsemi" ->   \* PRINT #n, text;
+         IF st.h[o.n].m # "output" THEN Fail(st, FileErr)
+         ELSE SetFile(st, st.h[o.n].name, st.store[st.h[o.n].name] \o o.text)
     [] o.op = "lineinput" ->
          IF st.h[o.n].m # "input" THEN Fail(st, FileErr)
          ELSE LET b == st.store[st.h[o.n].name]
@@ -143,24 +150,35 @@ Step(st, o) ==
               Emit([st EXCEPT !.stdin = SubSeq(@, r.next, Len(@))], <<91>> \o r.text \o <<93>>)
     [] o.op = "field" ->       \* FIELD #n, w1 AS F1$, w2 AS F2$ ...
          IF st.h[o.n].m # "random" THEN (IF st.h[o.n].m = "closed" THEN Fail(st, FileErr) ELSE Unfixed(st))
-         ELSE [st EXCEPT !.h[o.n].fld = [i \in 1..Len(o.ws) |-> [w |-> o.ws[i], v |-> Blanks(o.ws[i])]]]
+         \* every FIELD statement adds a list; all lists describe the record from its first byte
+         ELSE LET lst == [i \in 1..Len(o.ws) |-> [w |-> o.ws[i], v |-> Blanks(o.ws[i])]] IN
+              IF st.h[o.n].fld = <<>> THEN [st EXCEPT !.h[o.n].fld = lst]
+              ELSE [st EXCEPT !.h[o.n].more = Append(@, st.h[o.n].fld), !.h[o.n].fld = lst]
     [] o.op = "lset" ->        \* LSET F<i>$ = text
-         IF st.h[o.n].m # "random" \/ o.i > Len(st.h[o.n].fld) THEN Unfixed(st)
+         \* with several lists the variables overlap: what LSET into one of them means for the others is not fixed
+         IF st.h[o.n].m # "random" \/ o.i > Len(st.h[o.n].fld) \/ st.h[o.n].more # <<>> THEN Unfixed(st)
          ELSE [st EXCEPT !.h[o.n].fld[o.i].v = FixLen(st.h[o.n].fld[o.i].w, o.text)]
     [] o.op = "put" ->
          IF st.h[o.n].m # "random" THEN (IF st.h[o.n].m = "closed" THEN Fail(st, FileErr) ELSE Unfixed(st))
          ELSE LET hh == st.h[o.n]
-                  rec == FixLen(hh.len, Concat(hh.fld))
-              IN IF Len(Concat(hh.fld)) # hh.len THEN Unfixed(st)     \* fields must cover the record exactly
+                  \* a list may describe only the beginning of the record: those bytes are written at the record's
+                  \* offset; what the rest of the record holds is not fixed (and no field shows it)
+                  rec == Concat(hh.fld)
+              IN IF Len(rec) > hh.len \/ hh.fld = <<>> \/ hh.more # <<>> THEN Unfixed(st)
                  ELSE SetFile(st, hh.name, PutRec(st.store[hh.name], hh.len, o.r, rec))
     [] o.op = "get" ->
          IF st.h[o.n].m # "random" THEN (IF st.h[o.n].m = "closed" THEN Fail(st, FileErr) ELSE Unfixed(st))
          ELSE LET hh == st.h[o.n] IN
-              IF Len(Concat(hh.fld)) # hh.len THEN Unfixed(st)
-              ELSE [st EXCEPT !.h[o.n].fld = Scatter(hh.fld, GetRec(st.store[hh.name], hh.len, o.r), 1)]
+              IF Len(Concat(hh.fld)) > hh.len \/ hh.fld = <<>> \/ \E l \in 1..Len(hh.more) : Len(Concat(hh.more[l])) > hh.len THEN Unfixed(st)
+              ELSE LET rec == GetRec(st.store[hh.name], hh.len, o.r) IN
+                   [st EXCEPT !.h[o.n].fld = Scatter(hh.fld, rec, 1),
+                              !.h[o.n].more = [l \in 1..Len(hh.more) |-> Scatter(hh.more[l], rec, 1)]]
     [] o.op = "show" ->        \* PRINT "[" + F<i>$ + "]"
-         IF st.h[o.n].m # "random" \/ o.i > Len(st.h[o.n].fld) THEN Unfixed(st)
-         ELSE Emit(st, <<91>> \o st.h[o.n].fld[o.i].v \o <<93>>)
+         IF st.h[o.n].m # "random" THEN Unfixed(st)
+         ELSE LET hh == st.h[o.n]
+                  \* l = 0: the newest list, l = k: the k-th older one
+                  lst == IF "l" \in DOMAIN o /\ o.l > 0 THEN (IF o.l <= Len(hh.more) THEN hh.more[o.l] ELSE <<>>) ELSE hh.fld
+              IN IF o.i > Len(lst) THEN Unfixed(st) ELSE Emit(st, <<91>> \o lst[o.i].v \o <<93>>)
 
 (***************************************************************************)
 (* Invariants of the model                                                   *)
